@@ -1,7 +1,7 @@
 """C07 - every model the topology API builds satisfies the published graph rules and containment structure; views are exact and read-only."""
 from vf.registry import add
 from harness.topo_steps import mk, mk2, OPS2_FIRST, OPS2_SECOND, ALL_OPS, ENC
-S3_QUICK = ('remove_node', 'remove_component', 'remove_child_interface')
+S3_QUICK = ('remove_node', 'remove_component', 'remove_child_interface', 'prune')
 for _k, _tiers in (('S4', ("quick", "thorough")), ('S3', ("thorough",)), ('S1', ("thorough",)), ('S0', ("thorough",))):
     for _op in ALL_OPS:
         if _k == 'S4' and _op == 'add_link':
@@ -11,7 +11,10 @@ for _k, _tiers in (('S4', ("quick", "thorough")), ('S3', ("thorough",)), ('S1', 
             add("c07/S4/add_network_service_two_interfaces", mk('C07', _k, _op), timeout=1500, tiers=("thorough",), encodes=ENC,
                 bounds="skeleton S4, new service with 0..2 interfaces from 5 representative ones at symbolic positions")
         _t = ("quick", "thorough") if (_k == 'S3' and _op in S3_QUICK) else _tiers
-        add("c07/%s/%s" % (_k, _op), mk('C07', _k, _op, small=(_k == 'S4')), timeout=900, tiers=_t, encodes=ENC,
+        if _op == 'prune' and _k in ('S3', 'S4'):
+            add("c07/%s/prune_all_subsets" % _k, mk('C07', _k, _op), timeout=2400, tiers=("thorough",), encodes=ENC,
+                bounds="skeleton %s, prune() after marking every one of the 1024 subsets of ten elements (nodes, components, services, interfaces)" % _k)
+        add("c07/%s/%s" % (_k, _op), mk('C07', _k, _op, small=(_k == 'S4' or _op == 'prune')), timeout=900, tiers=_t, encodes=ENC,
             bounds="skeleton %s, one %s with symbolic arguments (names/sites/types/interfaces by symbolic index incl. unused and duplicate ones, "
                    "unbounded int capacities, unbounded symbolic model string); 13 structural rules + containment + name uniqueness + views" % (_k, _op))
 
